@@ -117,6 +117,8 @@ def pred(case):
     P, qp, J = _impl()
     it = case['item']
     try:
+        if it == 'alias':
+            return pred_alias(case)
         if it == 'jsum':
             s, a, b = case['s'], case['alpha'], case['beta']
             x = np.asarray(case['x'], dtype=float)
@@ -193,6 +195,208 @@ def pred(case):
     raise C.ToolError(f'unknown item {it}')
 
 
+
+# ------------------------------------------------------------------------------------------------
+# history / aliasing: every fast path evaluated twice on the caller's own containers
+# ------------------------------------------------------------------------------------------------
+CONTAINERS = ['f64', 'f32', 'i64', 'list', 'tuple']
+ALIAS_PATHS = ['jsum', 'qbfs', 'zzqbfs', 'zzqcon', 'q2dalphas', 'q2d', 'tdot', 'lstsq', 'pack']
+
+
+def container(vals, kind):
+    if kind == 'f64':
+        return np.array(vals, dtype=np.float64)
+    if kind == 'f32':
+        return np.array(vals, dtype=np.float32)
+    if kind == 'i64':
+        return np.array([int(v) for v in vals], dtype=np.int64)
+    if kind == 'list':
+        return list(vals)
+    if kind == 'tuple':
+        return tuple(vals)
+    raise C.ToolError(kind)
+
+
+def snap(obj):
+    """deep snapshot (values, dtypes, container types) of nested lists / tuples / arrays"""
+    if isinstance(obj, np.ndarray):
+        return ('nd', obj.dtype.str, obj.shape, obj.copy())
+    if isinstance(obj, (list, tuple)):
+        return (type(obj).__name__, [snap(o) for o in obj])
+    return ('sc', obj)
+
+
+def same(a, b):
+    if a[0] != b[0]:
+        return False
+    if a[0] == 'nd':
+        return a[1] == b[1] and a[2] == b[2] and np.array_equal(a[3], b[3], equal_nan=True)
+    if a[0] == 'sc':
+        return a[1] == b[1] or (a[1] != a[1] and b[1] != b[1])
+    return len(a[1]) == len(b[1]) and all(same(x, y) for x, y in zip(a[1], b[1]))
+
+
+def pred_alias(case):
+    """evaluate a fast path twice on the same caller-owned containers: both results must equal the explicit sum formed
+    from a pristine copy of the coefficients, and every argument must be left exactly as it was"""
+    P, qp, J = _impl()
+    path, kind = case['path'], case['container']
+    tol = 1e-5 if kind == 'f32' else TOL
+    cs = [float(v) for v in case['cs']]                     # pristine python floats
+    cs2 = [float(v) for v in case.get('cs2', case['cs'])]
+    u = np.array(case.get('u', [0.3, 0.8]), dtype=float)
+    t = np.array(case.get('t', [0.4, 2.0]), dtype=float)
+    x = np.array(case.get('x', [-0.6, 0.35]), dtype=float)
+    usq = u * u
+    args = None
+    if path == 'jsum':
+        a, b = case['alpha'], case['beta']
+        exp = sum(c * J.jacobi(n, a, b, x.copy()) for n, c in enumerate(cs))
+        args = [container(cs, kind), x]
+        call = lambda: J.jacobi_sum_clenshaw(args[0], a, b, args[1])           # noqa: E731
+    elif path == 'qbfs':
+        exp = sum(c * qp.Qbfs(n, u.copy()) for n, c in enumerate(cs))
+        args = [container(cs, kind), usq]
+        call = lambda: qp.clenshaw_qbfs(args[0], args[1])                      # noqa: E731
+    elif path == 'zzqbfs':
+        exp = sum(c * qp.Qbfs(n, u.copy()) for n, c in enumerate(cs))
+        args = [container(cs, kind), u, usq]
+        call = lambda: qp.compute_z_zprime_Qbfs(args[0], args[1], args[2])[0]  # noqa: E731
+    elif path == 'zzqcon':
+        exp = sum(c * qp.Qcon(n, u.copy()) for n, c in enumerate(cs))
+        args = [container(cs, kind), u, usq]
+        call = lambda: qp.compute_z_zprime_Qcon(args[0], args[1], args[2])[0]  # noqa: E731
+    elif path == 'q2dalphas':
+        m = case['m']
+        exp = sum(c * qp.Q2d(n, m, u.copy(), np.zeros_like(u)) for n, c in enumerate(cs)) / u ** m
+        args = [container(cs, kind), usq]
+
+        def call():
+            al = qp.clenshaw_q2d(args[0], m, args[1])
+            return 0.5 * al[0] - (0.4 * al[3] if (m == 1 and len(cs) > 3) else 0.0)
+    elif path == 'q2d':
+        m = case['m']
+        pad = [[] for _ in range(m - 1)]
+        exp = sum(c * qp.Q2d(n, 0, u.copy(), t.copy()) for n, c in enumerate(cs)) \
+            + sum(c * qp.Q2d(n, m, u.copy(), t.copy()) for n, c in enumerate(cs2)) \
+            + sum(c * qp.Q2d(n, -m, u.copy(), t.copy()) for n, c in enumerate(cs))
+        args = [container(cs, kind), pad + [container(cs2, kind)], pad + [container(cs, kind)], u, t]
+        call = lambda: qp.compute_z_zprime_Q2d(args[0], args[1], args[2], args[3], args[4])[0]   # noqa: E731
+    elif path == 'tdot':
+        k = len(cs)
+        base = np.arange(k * 6, dtype=float).reshape(k, 2, 3) % 5 - 2.0       # integer-valued modes
+        exp = sum(c * base[i] for i, c in enumerate(cs))
+        mk = case.get('modes_container', 'f64')
+        if mk == 'list':
+            modes = [base[i].copy() for i in range(k)]
+        else:
+            modes = relayout(base.astype({'f64': np.float64, 'f32': np.float32, 'i64': np.int64}[mk]), case.get('modes_layout', 'C'))
+        args = [modes, container(cs, kind)]
+        call = lambda: P.sum_of_2d_modes(args[0], args[1])                    # noqa: E731
+    elif path == 'lstsq':
+        inner = dict(case['inner'])
+        modes, data, c = lstsq_build(inner)
+        exp = c
+        if kind == 'list':
+            modes = [np.array(mo) for mo in modes]
+        elif kind == 'f32':
+            modes, data = modes.astype(np.float32), data.astype(np.float32)
+        args = [modes, data]
+        tol = 2e-4 if kind == 'f32' else 1e-7
+        call = lambda: P.lstsq(args[0], args[1])                              # noqa: E731
+    elif path == 'pack':
+        nms = [tuple(p) for p in case['nms']]
+        want = {}
+        for key, c in zip(nms, cs):
+            want[key] = c
+        args = [list(nms) if kind in ('list', 'f64', 'f32', 'i64') else tuple(nms), container(cs, kind)]
+
+        def call():
+            cms, ac, bc = qp.Q2d_nm_c_to_a_b(args[0], args[1])
+            seen = {}
+            for n, c in enumerate(cms):
+                seen[(n, 0)] = float(c)
+            for k_, a_ in enumerate(ac):
+                for n, c in enumerate(a_):
+                    seen[(n, k_ + 1)] = float(c)
+            for k_, b_ in enumerate(bc):
+                for n, c in enumerate(b_):
+                    seen[(n, -(k_ + 1))] = float(c)
+            keys = sorted(set(seen) | set(want))
+            return np.array([seen.get(k_, 0.0) for k_ in keys])
+        keys = None
+        exp = None
+    else:
+        raise C.ToolError(path)
+    before = snap(args)
+    r1 = np.array(call(), dtype=float)
+    mid = snap(args)
+    r2 = np.array(call(), dtype=float)
+    after = snap(args)
+    if path == 'pack':
+        allk = sorted(set(want))
+        exp = r1.copy()          # structure compared through the dictionary below
+        cms, ac, bc = qp.Q2d_nm_c_to_a_b(list(nms), list(cs))
+        ref = {}
+        for n, c in enumerate(cms):
+            ref[(n, 0)] = float(c)
+        for k_, a_ in enumerate(ac):
+            for n, c in enumerate(a_):
+                ref[(n, k_ + 1)] = float(c)
+        for k_, b_ in enumerate(bc):
+            for n, c in enumerate(b_):
+                ref[(n, -(k_ + 1))] = float(c)
+        for key in allk:
+            if ref.get(key, 0.0) != want[key]:
+                return False, f'mode {key}: packed {ref.get(key, 0.0)} input {want[key]}'
+        keys_all = sorted(set(ref) | set(want))
+        exp = np.array([want.get(k_, 0.0) for k_ in keys_all])
+    if not same(before, mid):
+        return False, f'{path}: the first call modified its arguments (container {kind})'
+    if not same(mid, after):
+        return False, f'{path}: the second call modified its arguments (container {kind})'
+    if not close(r1, exp, tol):
+        return False, f'{path} on a {kind} container: first evaluation {np.ravel(r1)[:3]} explicit sum {np.ravel(exp)[:3]}'
+    if not close(r2, exp, tol):
+        return False, f'{path} on a {kind} container: second evaluation {np.ravel(r2)[:3]} explicit sum {np.ravel(exp)[:3]} (first was right)'
+    return True, ''
+
+
+def alias_cases(rng, count):
+    out = []
+    i = 0
+    while len(out) < count:
+        path = ALIAS_PATHS[i % len(ALIAS_PATHS)]
+        kind = CONTAINERS[(i // len(ALIAS_PATHS)) % len(CONTAINERS)]
+        n = int(rng.integers(1, 8))
+        cs = [float(int(v)) for v in rng.integers(-4, 5, n)]     # integer-valued, so that every container holds them exactly
+        if not any(cs):
+            cs[-1] = 1.0
+        cs2 = [float(int(v)) for v in rng.integers(-4, 5, int(rng.integers(1, 8)))]
+        case = {'item': 'alias', 'path': path, 'container': kind, 'cs': cs, 'cs2': cs2,
+                'u': [float(v) for v in rng.uniform(0.1, 0.95, 3)], 't': [float(v) for v in rng.uniform(0, 6, 3)],
+                'x': [float(v) for v in rng.uniform(-0.9, 0.9, 3)]}
+        a, b = AB[i % len(AB)]
+        case.update(alpha=a, beta=b, m=1 + (i // 3) % 4)
+        if path == 'tdot':
+            case['modes_container'] = ['f64', 'list', 'f32', 'i64'][(i // 7) % 4]
+            case['modes_layout'] = LAYOUTS[(i // 5) % len(LAYOUTS)]
+        if path == 'lstsq':
+            if kind in ('i64', 'tuple'):
+                i += 1
+                continue
+            nn = 5 * 7
+            case['inner'] = {'basis': 'legendre', 'orders': [[0, 0], [1, 0], [0, 1], [1, 1]], 'mask': ['ragged', 'dropout', 'none'][i % 3],
+                             'shape': [5, 7], 'c': [1.0, -0.5, 0.25, 2.0], 'drop': sorted(int(v) for v in rng.choice(nn, size=6, replace=False)),
+                             'poison': False, 'data_layout': LAYOUTS[(i // 2) % len(LAYOUTS)], 'modes_layout': LAYOUTS[(i // 3) % len(LAYOUTS)]}
+        if path == 'pack':
+            k = len(cs)
+            case['nms'] = [[int(rng.integers(0, 5)), int(rng.integers(-3, 4))] for _ in range(k)]
+        out.append(case)
+        i += 1
+    return out
+
+
 def lstsq_build(case):
     """modes (k, m, n), data with NaNs, coefficients — deterministic from the case description"""
     P, qp, J = _impl()
@@ -231,7 +435,31 @@ def lstsq_build(case):
         bad = ~np.isfinite(data)
         modes = modes.copy()
         modes[:, bad] = 1e6
+    # memory layout of the arrays handed to lstsq: the fit must depend on the logical (row, column) positions only
+    data = relayout(data, case.get('data_layout', 'C'))
+    modes = relayout(modes, case.get('modes_layout', 'C'))
     return modes, data, c
+
+
+LAYOUTS = ['C', 'F', 'T', 'strided', 'reversed']
+
+
+def relayout(a, kind):
+    """same logical array, different memory layout: C order, Fortran order, transposed view, strided view, negative strides"""
+    a = np.asarray(a)
+    if kind == 'C' or a.ndim < 2:
+        return np.ascontiguousarray(a)
+    if kind == 'F':
+        return np.asfortranarray(a)
+    if kind == 'T':
+        return np.ascontiguousarray(a.swapaxes(-1, -2)).swapaxes(-1, -2)
+    if kind == 'strided':
+        big = np.full(a.shape[:-1] + (2 * a.shape[-1],), 7.0, dtype=a.dtype)
+        big[..., ::2] = a
+        return big[..., ::2]
+    if kind == 'reversed':
+        return np.ascontiguousarray(a[..., ::-1, ::-1])[..., ::-1, ::-1]
+    raise C.ToolError(kind)
 
 
 # ------------------------------------------------------------------------------------------------
@@ -531,6 +759,7 @@ def correspondence(ctx):
         shp = [(3, 4), (1, 5), (4, 1), (2, 2), (5,), (2, 3, 2)][ci % 6]
         modes = rng.uniform(-1, 1, (k, *shp))
         w = rng.uniform(-1, 1, k)
+        lay = LAYOUTS[ci % len(LAYOUTS)]
         if ci % 7 == 0:
             w[int(rng.integers(k))] = 0.0
         case = {'item': 'tdot', 'modes': modes.tolist(), 'w': w.tolist()}
@@ -539,7 +768,7 @@ def correspondence(ctx):
         if not ok:
             ctx.pred_fail('tdot', case, detail)
         try:
-            got = np.asarray(P.sum_of_2d_modes(modes, w), dtype=float).ravel()
+            got = np.asarray(P.sum_of_2d_modes(relayout(modes, lay), relayout(np.stack([w, w]), 'F')[0]), dtype=float).ravel()
         except Exception as ex:
             got = f'raised {type(ex).__name__}: {ex}'
         size = int(np.prod(shp))
@@ -554,6 +783,13 @@ def correspondence(ctx):
                 ctx.disagree('tdot', case, 'model tensordot', 'differs from model loop', 'model self-check')
         add(f'f tdot {k} {size} ' + ' '.join(C.f2w(v) for v in w) + ' ' + ' '.join(C.f2w(v) for v in modes.reshape(k, -1).ravel()), chk)
 
+    # ------------------------------------------------ history / aliasing: twice on the caller's own containers
+    for case in alias_cases(rng, ctx.scale(270, 2700)):
+        ctx.case('alias', case, nontrivial=True, tag=f'{case["path"]}/{case["container"]}')
+        ok, detail = pred(case)
+        if not ok:
+            ctx.pred_fail('alias', case, detail)
+
     # ------------------------------------------------ lstsq
     for ci, case in enumerate(lstsq_cases(ctx)):
         try:
@@ -561,7 +797,8 @@ def correspondence(ctx):
         except Exception as ex:
             raise C.ToolError(f'lstsq case construction failed: {ex}')
         keep = np.isfinite(data).ravel()
-        ctx.case('lstsq', case, nontrivial=True, tag=f'{case["basis"]}/{case["mask"]}')
+        ctx.case('lstsq', case, nontrivial=True,
+                 tag=f'{case["basis"]}/{case["mask"]}/{case.get("data_layout", "C")}-{case.get("modes_layout", "C")}')
         try:
             got = np.asarray(P.lstsq(modes, data), dtype=float)
         except Exception as ex:
@@ -606,9 +843,19 @@ def lstsq_cases(ctx):
             break
         n = shape[0] * shape[1]
         drop = sorted(int(v) for v in rng.choice(n, size=n // 5, replace=False))
+        k = len(out)
         out.append({'item': 'lstsq', 'basis': basis, 'orders': [list(o) for o in orders], 'mask': mask, 'shape': list(shape),
                     'c': [float(int(v * 16)) / 16 for v in rng.uniform(-2, 2, len(orders))], 'drop': drop,
-                    'poison': bool(len(out) % 2)})
+                    'poison': bool(k % 2), 'data_layout': LAYOUTS[k % len(LAYOUTS)], 'modes_layout': LAYOUTS[(k // 2) % len(LAYOUTS)]})
+    # every (data layout, modes layout) pair with an asymmetric mask on a non-square grid
+    for dl in LAYOUTS:
+        for ml in LAYOUTS:
+            for mask in ('ragged', 'dropout'):
+                n = 6 * 9
+                drop = sorted(int(v) for v in rng.choice(n, size=n // 5, replace=False))
+                out.append({'item': 'lstsq', 'basis': 'legendre', 'orders': [[0, 0], [1, 0], [0, 1], [1, 1], [2, 0]], 'mask': mask,
+                            'shape': [6, 9], 'c': [float(int(v * 16)) / 16 for v in rng.uniform(-2, 2, 5)], 'drop': drop,
+                            'poison': True, 'data_layout': dl, 'modes_layout': ml})
     return out
 
 
@@ -640,6 +887,13 @@ def _small_cases():
     for k in (1, 2, 3):
         yield {'item': 'tdot', 'modes': [[[float(i + j + q) for j in range(3)] for i in range(2)] for q in range(k)],
                'w': [1.0 + q for q in range(k)]}
+    for kind in CONTAINERS:
+        for path in ('qbfs', 'zzqbfs', 'q2d', 'jsum', 'q2dalphas', 'zzqcon'):
+            yield {'item': 'alias', 'path': path, 'container': kind, 'cs': [1.0, -2.0, 3.0], 'cs2': [2.0, 1.0], 'u': [0.3, 0.8],
+                   't': [0.4, 2.0], 'x': [-0.6, 0.35], 'alpha': 0.5, 'beta': 1.5, 'm': 1}
+    for dl in LAYOUTS:
+        yield {'item': 'lstsq', 'basis': 'legendre', 'orders': [[0, 0], [1, 0], [0, 1]], 'mask': 'ragged', 'shape': [4, 6],
+               'c': [1.0, -0.5, 0.25], 'drop': [], 'poison': True, 'data_layout': dl, 'modes_layout': 'C'}
     for mask in ('none', 'circle', 'dropout', 'inf'):
         yield {'item': 'lstsq', 'basis': 'legendre', 'orders': [[0, 0], [1, 0], [0, 1]], 'mask': mask, 'shape': [5, 5],
                'c': [1.0, -0.5, 0.25], 'drop': [0, 7, 12, 18], 'poison': True}
